@@ -275,3 +275,7 @@ def py_eq(a, b):
         x_eq(a, b),
         a == b,
     )
+
+
+attr_of = z3.Function("attr_of", Val, z3.StringSort(), Val)   # getattr(object, name) of an arbitrary Python object, where it succeeds
+is_container = z3.Function("is_container", Val, z3.StringSort(), z3.BoolSort())   # isinstance(v, dict|list|tuple|set) of an arbitrary value: an unknown fact
